@@ -4,8 +4,9 @@ import (
 	"fmt"
 	"go/ast"
 	"go/token"
-	"strconv"
+	"go/types"
 	"sort"
+	"strconv"
 	"strings"
 
 	"golang.org/x/tools/go/ssa"
@@ -238,7 +239,7 @@ func builderTemplates(fn *ssa.Function) []keyTemplate {
 						if s, ok := constStrOf(a); ok {
 							parts = append(parts, fmt.Sprintf("%q", s))
 						} else {
-							parts = append(parts, "⟨"+D(a)+"⟩")
+							parts = append(parts, "⟨"+operandName(a)+"⟩")
 						}
 					case "WriteByte":
 						if v, ok := constIntOf(call.Call.Args[1]); ok {
@@ -433,11 +434,12 @@ func runC34(c *Ctx) {
 				switch {
 				case strings.Contains(seg, "pubSubPartitionHashTag("):
 					norm = "⟨partition tag of the channel⟩"
-				case seg == "⟨arg:ch⟩":
+				case seg == "⟨strparam#0⟩":
 					norm = "⟨channel⟩"
 				}
 				// the first brace of the key is the template's own: nothing but the prefix precedes it
-				c.CheckAt("C34.R1", name+" ["+cfg+"]: only the configured prefix and literals precede the hash tag", w.Pos(fn.Pos()), t.prefixOnlyBeforeBrace(), strings.Join(t.Parts, " "))
+				okParam := func(k int) bool { return k >= 1 && strParamIsBraceFreeConst(w, fn, k) }
+				c.CheckAt("C34.R1", name+" ["+cfg+"]: only the configured prefix and literals precede the hash tag", w.Pos(fn.Pos()), t.prefixOnlyBeforeBrace(okParam), strings.Join(t.Parts, " "))
 				segs[cfg][name] = norm
 			}
 		}
@@ -533,7 +535,7 @@ func runC34(c *Ctx) {
 
 // prefixOnlyBeforeBrace: every part before the first literal containing '{' is the configured prefix
 // (a field named Prefix / messagePrefix) or a literal.
-func (t keyTemplate) prefixOnlyBeforeBrace() bool {
+func (t keyTemplate) prefixOnlyBeforeBrace(okParam func(k int) bool) bool {
 	for _, p := range t.Parts {
 		if strings.HasPrefix(p, "\"") {
 			if strings.Contains(p, "{") {
@@ -541,8 +543,12 @@ func (t keyTemplate) prefixOnlyBeforeBrace() bool {
 			}
 			continue
 		}
-		if strings.HasSuffix(p, "refix⟩") || strings.HasSuffix(p, "arg:infix⟩") {
+		if strings.HasSuffix(p, "refix⟩") {
 			continue
+		}
+		var k int
+		if n, _ := fmt.Sscanf(p, "⟨strparam#%d⟩", &k); n == 1 && okParam(k) {
+			continue // e.g. the literal infix every caller of buildKey passes
 		}
 		if strings.HasPrefix(p, "⟨φ(\"") && !strings.Contains(p, "{") && !strings.Contains(p, "arg:") && !strings.Contains(p, "(*") {
 			continue // a choice between brace-free literals
@@ -779,5 +785,52 @@ func concatParts(v ssa.Value, depth int) []string {
 	if sv, ok := constStrOf(v); ok {
 		return []string{fmt.Sprintf("%q", sv)}
 	}
-	return []string{"⟨" + D(v) + "⟩"}
+	return []string{"⟨" + operandName(v) + "⟩"}
+}
+
+// operandName renders a template operand. String parameters are named by their role — their position
+// among the function's string-typed parameters — so that renaming a parameter changes nothing.
+func operandName(v ssa.Value) string {
+	if p, ok := v.(*ssa.Parameter); ok && p.Parent() != nil {
+		k := 0
+		for _, fp := range p.Parent().Params {
+			if b, isB := fp.Type().Underlying().(*types.Basic); isB && b.Kind() == types.String {
+				if fp == p {
+					return fmt.Sprintf("strparam#%d", k)
+				}
+				k++
+			}
+		}
+	}
+	d := D(v)
+	// a parameter seen through its single-store cell
+	return d
+}
+
+// strParamIsBraceFreeConst: every caller passes a brace-free string constant for the k-th string parameter.
+func strParamIsBraceFreeConst(w *World, fn *ssa.Function, k int) bool {
+	idx, n := -1, 0
+	for i, fp := range fn.Params {
+		if b, isB := fp.Type().Underlying().(*types.Basic); isB && b.Kind() == types.String {
+			if n == k {
+				idx = i
+			}
+			n++
+		}
+	}
+	callers := w.Callers(fn)
+	if idx < 0 || len(callers) == 0 {
+		return false
+	}
+	for _, ci := range callers {
+		args := ci.Common().Args
+		if idx >= len(args) {
+			return false
+		}
+		s, ok := constStrOf(args[idx])
+		if !ok || strings.ContainsAny(s, "{}") {
+			return false
+		}
+	}
+	return true
 }
